@@ -88,9 +88,64 @@ def csys(cfg, ids=None):
         kinds = {"Q1": "Q", "T1": "T", "Q2": "QQ", "QT": "QT", "TQ": "TQ", "Q3": "QQQ", "T2": "TT", "Q4": "QQQQ"}[cfg]
         names = ids or list(range(len(kinds)))
         es = [ElementalSystem(n, bases[k]()) for n, k in zip(names, kinds)]
+    _warm_sibling(cfg, ids)
     c = CompositeSystem(es)
     _CS_CACHE[key] = c
     return c
+
+
+_LAZY_TABLES = ("dict_from_hs_to_choi", "dict_from_choi_to_hs", "basis_T_sparse", "basisconjugate_sparse", "basisconjugate_basis_sparse",
+                "basis_basisconjugate_T_sparse", "basis_basisconjugate_T_sparse_from_1", "basishermitian_basis_T_from_1")
+WARMED = []
+
+
+def _warm_sibling(cfg, ids):
+    """Before the composite system of a configuration is created, a SIBLING system of the same shape but with another matrix
+    basis is created in the same process and all its lazily built tables are requested (and a state / gate conversion run on
+    it).  Nothing is claimed about the sibling; it is there so that state shared between composite systems -- a table
+    memoised per shape instead of per object -- shows up as a wrong result of the system under test."""
+    from quara.objects.composite_system import CompositeSystem
+    from quara.objects.elemental_system import ElementalSystem
+    from quara.objects import matrix_basis as mb
+    dims = {"Q1": [2], "Q1u": [2], "Q1h": [2], "T1": [3], "Q2": [2, 2], "QT": [2, 3], "TQ": [3, 2]}.get(cfg)
+    if dims is None or os.environ.get("SYMQ_NO_SIBLING"):
+        return
+    import numpy as _np
+    from . import nd as _nd
+    was = _nd.MODE["symbolic"]
+    _nd.MODE["symbolic"] = False
+    try:
+        es = []
+        for k, d in enumerate(dims):
+            if d == 2:
+                basis = mb.get_normalized_pauli_basis() if cfg == "Q1h" else mb.get_normalized_hermitian_basis(2)
+            else:
+                basis = mb.get_normalized_hermitian_basis(3)
+            es.append(ElementalSystem(100 + k, basis))
+        sib = CompositeSystem(es)
+        for name in _LAZY_TABLES:
+            getattr(sib, name)
+        sib.basis()
+        sib.comp_basis()
+        sib.get_basis(0)
+        n = sib.dim ** 2
+        from quara.objects.state import State
+        from quara.objects.gate import Gate
+        from quara.objects.povm import Povm
+        rs = _np.random.RandomState(7)
+        st = State(sib, rs.normal(size=n), is_physicality_required=False)
+        st.to_density_matrix()
+        st.to_density_matrix_with_sparsity()
+        pv = Povm(sib, [rs.normal(size=n), rs.normal(size=n)], is_physicality_required=False)
+        pv.matrices()
+        pv.matrices_with_sparsity()
+        g = Gate(sib, rs.normal(size=(n, n)), is_physicality_required=False)
+        g.to_choi_matrix()
+        g.to_choi_matrix_with_dict()
+        g.to_choi_matrix_with_sparsity()
+        WARMED.append(cfg)
+    finally:
+        _nd.MODE["symbolic"] = was
 
 
 def dense_basis(c_sys):
